@@ -186,7 +186,7 @@ fn examine(prop: &str, p: &Prepared, w: &Workload, crash_at: u64, power: bool, k
                 out.add_class("before_first_ack");
             } else if !matched && !cand_idx.is_empty() {
                 // is it an older acknowledged state (C01: acknowledged work lost) or no prefix at all (C02)?
-                let older = stable.map(|s| (0..s).rev().filter(|j| !p.refs[*j].in_txn_after).any(|j| p.refs[j].tables == p.refs[s].tables && crate::world::diff_obs(&p.refs[j].obs, &obs_list[0]).is_none())).unwrap_or(false);
+                let older = stable.map(|s| (0..s).rev().filter(|j| !p.refs[*j].in_txn_after).any(|j| p.refs[j].tables.len() == p.refs[s].tables.len() && p.refs[j].tables.iter().zip(&p.refs[s].tables).all(|(a, b)| a.name == b.name && a.cols == b.cols && a.indexes == b.indexes) && p.refs[j].obs.values().all(|t| t.rows.is_ok() && t.count.is_ok()) && crate::world::diff_obs(&p.refs[j].obs, &obs_list[0]).is_none())).unwrap_or(false);
                 let facet = first_diff.split(':').next().unwrap_or("").to_string();
                 if older {
                     if prop == "C01" {
@@ -200,7 +200,9 @@ fn examine(prop: &str, p: &Prepared, w: &Workload, crash_at: u64, power: bool, k
                     // C01: what both allowed states contain (rows the in-flight statement does not touch) must be
                     // there; a half-applied in-flight statement is C02's concern
                     let sref = &p.refs[cand_idx[0]].obs;
-                    let nref = cand_idx.get(1).map(|c| &p.refs[*c].obs);
+                    // the reference state right after the in-flight statement (inside its transaction, if any):
+                    // rows in both are untouched by everything that was still uncommitted at the crash
+                    let nref = p.refs.get(acked).filter(|r| r.tables.len() == p.refs[cand_idx[0]].tables.len() && r.tables.iter().zip(&p.refs[cand_idx[0]].tables).all(|(a, b)| a.name == b.name && a.cols == b.cols && a.indexes == b.indexes)).map(|r| &r.obs);
                     let rec = &obs_list[0];
                     let mut missing: Option<String> = None;
                     'tables: for (name, st) in sref.iter() {
@@ -232,24 +234,8 @@ fn examine(prop: &str, p: &Prepared, w: &Workload, crash_at: u64, power: bool, k
                             }
                             _ => {}
                         }
-                        for (q, sr) in &st.probes {
-                            let Some((_, rr)) = rt.probes.iter().find(|(s, _)| s == q) else { continue };
-                            match (sr, rr) {
-                                (Ok(srows), Ok(rrows)) => {
-                                    for row in srows {
-                                        if in_next(Some(q), row) && !rrows.contains(row) {
-                                            missing = Some(format!("probe|rows_missing: {} no longer returns acknowledged row {:?}", q, row.iter().map(|v| v.sql().chars().take(20).collect::<String>()).collect::<Vec<_>>()));
-                                            break 'tables;
-                                        }
-                                    }
-                                }
-                                (Ok(_), Err(e)) => {
-                                    missing = Some(format!("probe|error: {} fails: {}", q, e));
-                                    break 'tables;
-                                }
-                                _ => {}
-                            }
-                        }
+                        // index probes are C02's facet ("every index agrees with its table")
+                        let _ = &in_next;
                     }
                     match missing {
                         Some(m) => {
